@@ -241,7 +241,9 @@ func (l *Loader) updates() {
 			// notify that we are warmed, but one time only
 			warm.Do(func() { close(l.warm) })
 		case q := <-l.query:
-			go func() {
+			// the goroutine works on the values current at the time of the query: the loop may
+			// replace providers and filters while it is still running
+			go func(prefixDeny, prefixAllow *prefixFilter, providers []tq.SecretProvider) {
 				// prefixFilter will log to prom counters and also act as a quick fail for prefixes that do not pass
 				// muster.  this pevents unnecessary load on scanning SecretProviders
 				vhook("l.q1", l, q.remote)
@@ -261,7 +263,7 @@ func (l *Loader) updates() {
 				q.cb <- secretProvider{secret: secret, handler: handler, err: err}
 				close(q.cb)
 				buildGet.Inc()
-			}()
+			}(prefixDeny, prefixAllow, providers)
 		}
 	}
 }
